@@ -325,7 +325,7 @@ func mergeStats(a, b *SolverStats) {
 
 func (e *Engine) execPath(w *Worker, h *HarnessRun, prefix []int) (newTasks [][]int) {
 	x := &Exec{eng: e, w: w, ts: w.ts, sol: w.sol, h: h, prefix: prefix,
-		globals: map[*ssa.Global]*Value{}, covers: map[string]bool{}, side: map[string]Value{}, funcs: map[string]int{}}
+		globals: map[*ssa.Global]*Value{}, covers: map[string]bool{}, side: map[string]Value{}, funcs: map[string]int{}, lit: map[*Term]bool{}}
 	w.sol.record = e.dumpDir != ""
 	w.sol.script = w.sol.script[:0]
 	w.sol.Push()
